@@ -10,4 +10,6 @@ mod c_bits;
 #[cfg(kani)]
 mod c_grid;
 #[cfg(kani)]
+mod c_container;
+#[cfg(kani)]
 mod playback_gen;
